@@ -74,7 +74,11 @@ func drawJSONOpts(c *simkit.Choices) []string {
 }
 
 func (Engine) Run(c *simkit.Choices, x *simkit.Ctx) *simkit.Violation {
-	switch c.N(4) {
+	switch c.N(6) {
+	case 5:
+		return pipeSinkFaults(c, x)
+	case 4:
+		return foldSinkFaults(c, x)
 	case 0:
 		return sinkFaults(c, x)
 	case 1:
@@ -151,6 +155,110 @@ func sinkFaults(c *simkit.Choices, x *simkit.Ctx) *simkit.Violation {
 		_ = failedAt
 	}
 	st.Sample(map[string]interface{}{"side": "sink", "encoder": f, "options": opts, "stream": model.OpsString(ops, 12), "writes": total, "fault_indices": len(ks)})
+	return nil
+}
+
+// foldSinkFaults: a Go value is folded straight into an encoder whose writer
+// fails from write k: Fold (the whole call sequence) must report an error.
+func foldSinkFaults(c *simkit.Choices, x *simkit.Ctx) *simkit.Violation {
+	st := x.Stats
+	f := model.Formats[c.N(3)]
+	var opts []string
+	if f == model.JSON {
+		opts = drawJSONOpts(c)
+	}
+	te := model.PickType(c, false, false, false)
+	val := te.Gen(c)
+	useIter := c.Bool()
+	run := func(w *simkit.Writer) error {
+		enc := newEncoder(f, w, opts)
+		if useIter {
+			it, err := gotype.NewIterator(enc)
+			if err != nil {
+				return err
+			}
+			return it.Fold(val)
+		}
+		return gotype.Fold(val, enc)
+	}
+	w := simkit.NewWriter()
+	var dryErr error
+	if pi := simkit.Guard(func() { dryErr = run(w) }); pi != nil || dryErr != nil {
+		st.Probe("fold-sink-dry-run-failed")
+		return nil
+	}
+	total := w.Writes
+	for _, k := range pickKs(c, total) {
+		sc := &Scenario{Side: "sink", Target: "gotype.Fold->" + string(f), Options: opts, Type: te.Name, Value: model.Render(val), K: k, Total: total}
+		simkit.SetCurrent(sc)
+		st.Eval(1)
+		st.Fault("write-fails-from-k")
+		st.Distinct(simkit.NewDigest().Str(sc.Target).Str(sc.Value).Int(k).Str(fmt.Sprint(opts)).Sum())
+		fw := simkit.NewWriter()
+		fw.FailFrom, fw.Err, fw.Clock = k, &injErr{k}, &x.Clock
+		var got error
+		if pi := simkit.Guard(func() { got = run(fw) }); pi != nil {
+			return &simkit.Violation{Kind: "panic", Site: "sink/fold/" + string(f) + pi.Site, Detail: pi.Value + "\n" + pi.Stack, Scenario: sc}
+		}
+		if fw.Failed > 0 && got == nil {
+			return &simkit.Violation{Kind: "error-lost", Site: "sink/fold->" + string(f) + "/" + te.Name,
+				Detail: fmt.Sprintf("the writer failed from write %d of %d (%d failed writes) but Fold returned nil", k, total, fw.Failed), Scenario: sc}
+		}
+	}
+	st.Sample(map[string]interface{}{"side": "sink", "producer": "gotype.Fold", "encoder": f, "go_type": te.Name, "writes": total})
+	return nil
+}
+
+// pipeSinkFaults: parser -> encoder -> writer failing from write k: the
+// parsing call must report an error (both clauses of the property composed).
+func pipeSinkFaults(c *simkit.Choices, x *simkit.Ctx) *simkit.Violation {
+	st := x.Stats
+	sf, df := model.Formats[c.N(3)], model.Formats[c.N(3)]
+	src := common.ByName(sf)
+	doc := common.GenDoc(c, sf, model.QuickOpts(), 1)
+	data := doc.Bytes
+	var reads []int
+	for i, n := 0, 1+c.N(3); i < n; i++ {
+		reads = append(reads, 1+c.N(9))
+	}
+	entry := c.N(3)
+	run := func(w *simkit.Writer) error {
+		enc := newEncoder(df, w, nil)
+		switch entry {
+		case 0:
+			return src.Parse(simkit.Exact(data), enc)
+		case 1:
+			_, err := src.ParseReader(&simkit.Reader{Data: data, Sizes: reads, Clock: &x.Clock}, enc)
+			return err
+		default:
+			return src.NewBytesDecoder(simkit.Exact(data), enc).Next()
+		}
+	}
+	w := simkit.NewWriter()
+	var dryErr error
+	if pi := simkit.Guard(func() { dryErr = run(w) }); pi != nil || dryErr != nil {
+		st.Probe("pipe-sink-dry-run-failed")
+		return nil
+	}
+	total := w.Writes
+	for _, k := range pickKs(c, total) {
+		sc := &Scenario{Side: "sink", Target: string(sf) + "-parser->" + string(df) + "-encoder", Doc: hex.EncodeToString(data),
+			Entry: []string{"parse", "reader", "decoder-bytes"}[entry], Reads: reads, K: k, Total: total}
+		simkit.SetCurrent(sc)
+		st.Eval(1)
+		st.Fault("write-fails-from-k")
+		st.Distinct(simkit.NewDigest().Str(sc.Target).Str(sc.Doc).Str(sc.Entry).Ints(reads).Int(k).Sum())
+		fw := simkit.NewWriter()
+		fw.FailFrom, fw.Err, fw.Clock = k, &injErr{k}, &x.Clock
+		var got error
+		if pi := simkit.Guard(func() { got = run(fw) }); pi != nil {
+			return &simkit.Violation{Kind: "panic", Site: "sink/pipe/" + sc.Target + pi.Site, Detail: pi.Value + "\n" + pi.Stack, Scenario: sc}
+		}
+		if fw.Failed > 0 && got == nil {
+			return &simkit.Violation{Kind: "error-lost", Site: "sink/pipe/" + sc.Target,
+				Detail: fmt.Sprintf("the writer failed from write %d of %d (%d failed writes) but the parsing call returned nil", k, total, fw.Failed), Scenario: sc}
+		}
+	}
 	return nil
 }
 
